@@ -154,12 +154,11 @@ pub fn gen_literal(r: &mut Rng) -> ST {
             s.push(*r.pick(&specials));
         }
     }
-    match r.below(6) {
+    match r.below(5) {
         0 | 1 => lit_dt(&s, &format!("{XSD}string")),
         2 => lit_lang(&s, r.ps(&["en", "EN", "fr-BE"])),
         3 => lit_dt(&s, &format!("{XSD}integer")),
-        4 => lit_dt(&s, "http://e/dt"),
-        _ => lit_dt(&s, &format!("{RDF}langString")),
+        _ => lit_dt(&s, "http://e/dt"),
     }
 }
 fn ground(r: &mut Rng) -> ST {
@@ -645,7 +644,6 @@ pub fn spec_rdfc10(quads: &[Q], hash: &dyn Fn(&str) -> String) -> Result<SpecOut
     let canon = sp.canonical.map.clone();
     let mut lines: Vec<String> = quads.iter().map(|q| spec_line(q, &|l| format!("_:{}", canon[l]))).collect();
     lines.sort();
-    lines.dedup();
     Ok(SpecOut { bytes: lines.concat(), idmap: canon, max_depth: sp.max_depth, max_list: sp.max_list, ties })
 }
 pub fn hash_with<H: HashFunction>(s: &str) -> String {
@@ -674,4 +672,213 @@ pub fn automorphic(d: &[Q], x: &str, y: &str) -> bool {
         }
     }
     false
+}
+
+// ---------------------------------------------------------------- the two drivers
+fn parse_back(bytes: &str) -> Result<Vec<Q>, String> {
+    let mut out: Vec<Q> = vec![];
+    sophia_turtle::parser::nq::parse_bufread(bytes.as_bytes())
+        .for_each_quad(|q| out.push(([to_st(q.s()), to_st(q.p()), to_st(q.o())], q.g().map(to_st))))
+        .map_err(|e| e.to_string())?;
+    Ok(out)
+}
+fn has_repeat(d: &[Q]) -> bool {
+    d.iter().any(|q| { let b = q_blanks(q); let s: BTreeSet<&String> = b.iter().collect(); s.len() < b.len() })
+}
+fn has_three(d: &[Q]) -> bool {
+    d.iter().any(|q| q_blanks(q).into_iter().collect::<BTreeSet<_>>().len() >= 3)
+}
+/// all graphs over blank nodes e0..e2 and two predicates with 1..=4 edges (self loops included)
+fn exhaustive_case(k: usize) -> Option<Vec<Q>> {
+    let mut edges: Vec<Q> = vec![];
+    for s in 0..3 { for p in [P, PQ] { for o in 0..3 { edges.push(e(b(s), p, b(o))); } } }
+    let n = edges.len();
+    let mut idx = 0usize;
+    for size in 1..=4usize {
+        let mut c: Vec<usize> = (0..size).collect();
+        loop {
+            if idx == k { return Some(c.iter().map(|&i| edges[i].clone()).collect()); }
+            idx += 1;
+            let mut i = size;
+            while i > 0 && c[i - 1] == n - size + (i - 1) { i -= 1; }
+            if i == 0 { break; }
+            c[i - 1] += 1;
+            for j in i..size { c[j] = c[j - 1] + 1; }
+        }
+    }
+    None
+}
+pub const EXHAUSTIVE: usize = 18 + 153 + 816 + 3060;
+const DF_GRID: [u64; 7] = [0, 250, 500, 1000, 1500, 2000, 3000];
+const PL_GRID: [usize; 7] = [0, 1, 2, 3, 4, 6, 12];
+
+fn check_one(tag: &str, d: &[Q], order: &[Q], out: &Outcome, spec: &Result<SpecOut, String>, df1000: u64, pl: usize, fails: &mut Vec<String>) {
+    let nb = d_blanks(d).len();
+    match out.code {
+        0 => {
+            // (b) the document re-reads to a dataset isomorphic to the input, labelled c14n0..c14n(n-1)
+            match parse_back(&out.bytes) {
+                Err(e) => fails.push(format!("{tag}: the canonical document does not parse back ({e}): {:?}", out.bytes)),
+                Ok(back) => {
+                    let want: BTreeSet<String> = (0..nb).map(|i| format!("c14n{i}")).collect();
+                    if d_blanks(&back) != want { fails.push(format!("{tag}: blank nodes of the output are {:?}, expected c14n0..c14n{}", d_blanks(&back), nb as i64 - 1)); }
+                    if back.len() != d.len() || !sophia_isomorphism::isomorphic_datasets(&back, &d.to_vec()).unwrap() { fails.push(format!("{tag}: the canonical document is not isomorphic to the input: {:?}", out.bytes)); }
+                }
+            }
+            // (c) the identifier map is a bijection onto c14n0.. and maps the input onto the returned quads
+            let keys: BTreeSet<String> = out.idmap.iter().map(|p| p.0.clone()).collect();
+            let vals: BTreeSet<String> = out.idmap.iter().map(|p| p.1.clone()).collect();
+            let want: BTreeSet<String> = (0..nb).map(|i| format!("c14n{i}")).collect();
+            if keys != d_blanks(d) || vals != want || out.idmap.len() != nb { fails.push(format!("{tag}: identifier map {:?} is not a bijection from the input labels onto c14n0..c14n{}", out.idmap, nb as i64 - 1)); }
+            let m: BTreeMap<String, String> = out.idmap.iter().cloned().collect();
+            let mapped: Vec<String> = order.iter().map(|q| show_q(&rename_q(q, &|l| m.get(l).cloned().unwrap_or_else(|| format!("MISSING-{l}"))))).collect();
+            let got: Vec<String> = out.quads.iter().map(show_q).collect();
+            if mapped != got { fails.push(format!("{tag}: applying the identifier map to the input gives {mapped:?} but the returned quads are {got:?}")); }
+            // (d) equality with the independent transcription of the W3C text
+            match spec {
+                Ok(s) if s.bytes == out.bytes => {}
+                Ok(s) => fails.push(format!("{tag}: output differs from RDFC-1.0 as transcribed from the W3C text{}: got {:?}, specification gives {:?}", if has_repeat(d) { " (the dataset has a quad mentioning one blank node twice)" } else { "" }, out.bytes, s.bytes)),
+                Err(e) => fails.push(format!("{tag}: canonicalisation succeeded on input outside RDFC-1.0 ({e})")),
+            }
+        }
+        1 | 2 => {
+            if is_supported(d) { fails.push(format!("{tag}: Unsupported ({}) reported for a supported dataset", out.msg)); }
+        }
+        3 | 4 => {
+            // (e) a limit only fires when it is actually exceeded
+            match spec {
+                Ok(s) => {
+                    let depth_exceeded = (s.max_depth as u64) * 1000 > df1000 * nb as u64;
+                    let perm_exceeded = s.max_list > pl;
+                    if !depth_exceeded && !perm_exceeded { fails.push(format!("{tag}: ToxicGraph ({}) although the specification's run needs recursion depth {} <= {}*{}/1000 and permutes at most {} <= {} nodes", out.msg, s.max_depth, df1000, nb, s.max_list, pl)); }
+                }
+                Err(e) => fails.push(format!("{tag}: ToxicGraph on input outside RDFC-1.0 ({e})")),
+            }
+        }
+        _ => {
+            let generalized = d.iter().any(|q| !matches!(q.0[1], SimpleTerm::Iri(_) | SimpleTerm::BlankNode(_)));
+            if !generalized { fails.push(format!("{tag}: canonicalisation ended with {} instead of a result or an explicit error", out.msg)); }
+        }
+    }
+}
+
+fn c_idmap(m: &[(String, String)]) -> String {
+    coq_list(m.iter().map(|(k, v)| format!("({}, {})", coq_str(k), coq_str(v))))
+}
+
+pub fn run(mode: &str) {
+    let a = parse_args();
+    let c06 = mode == "C06";
+    let prefix_model = a.rest.iter().any(|x| x == "--prefix-model");
+    let once = coq_bool(!prefix_model);
+    let mut sum = Summary::default();
+    sum.rule = if c06 {
+        "case = (dataset: every graph over 3 blank nodes and 2 predicates with 1..4 edges in the thorough tier, then the C05 shapes with emphasis on literals with escape-relevant characters, quads mentioning one node twice and quads with three blank nodes; store type; SHA-256 or SHA-384; run once with the default limits and once with (depth_factor, permutation_limit) from the grid {0,.25,.5,1,1.5,2,3} x {0,1,2,3,4,6,12}); three-way comparison implementation / model of the implementation / model of the specification; non-trivial = hash-n-degree ran (two blank nodes share a first-degree hash), or a literal needs escaping, or the input is unsupported, or a limit fired; distinct = distinct (dataset, limits, hash)".into()
+    } else {
+        "case = (dataset of one shape among cycle / clique / disjoint isomorphic components / star / bipartite / blank graph names / node twice in a quad / three blank nodes in a quad / section-4-row-28 witness / literals / random / unsupported / tree, at most 6 blank nodes; a copy under a random label bijection and quad order; two store types among HashSet, BTreeSet, FastDataset, LightDataset; SHA-256 or SHA-384); non-trivial = hash-n-degree ran (two blank nodes share a first-degree hash); distinct = distinct (dataset, copy, hash)".into()
+    };
+    let base = Rng::new(a.seed);
+    let thorough = a.n >= 10000;
+    let mut cases = vec![];
+    let mut seen = HashSet::new();
+    let mut max_table = 0usize;
+    let range: Vec<usize> = match a.only { Some(i) => vec![i], None => (0..a.n).collect() };
+    for idx in range {
+        let mut r = base.fork(idx as u64);
+        let exhaustive = c06 && thorough && idx < EXHAUSTIVE;
+        let shape = if c06 { *r.pick(&[9usize, 9, 9, 6, 6, 7, 10, 10, 11, 0, 1, 2, 3, 4, 5, 8, 12]) } else { r.below(SHAPES.len()) };
+        let big = thorough && r.chance(1, 10);
+        let d: Vec<Q> = if exhaustive { exhaustive_case(idx).unwrap() } else { gen_dataset(&mut r, shape, big) };
+        let shape_name = if exhaustive { "exhaustive" } else { SHAPES[shape] };
+        let sha384 = r.chance(1, 3);
+        let (s1, s2) = (r.below(4), r.below(4));
+        let _ = take_table();
+        let mut fails: Vec<String> = vec![];
+        let spec1 = spec_run(&d, sha384);
+        let nontrivial_nd = spec1.as_ref().map(|s| s.max_list > 0).unwrap_or(false);
+        let mut body: Vec<String> = vec![];
+        let mut text = format!("{} [{}] {}", shape_name, if sha384 { "sha384" } else { "sha256" }, show_d(&d));
+        if c06 {
+            let (dfg, plg) = (*r.pick(&DF_GRID), *r.pick(&PL_GRID));
+            let mut shuffled = d.clone();
+            shuffle(&mut shuffled, &mut r);
+            for (k, (df1000, pl)) in [(1000u64, 6usize), (dfg, plg)].into_iter().enumerate() {
+                let store = if k == 0 { s1 } else { s2 };
+                let (order, out) = run_impl(&shuffled, store, sha384, df1000 as f32 / 1000.0, pl);
+                check_one(&format!("limits ({},{}) in {}", df1000 as f32 / 1000.0, pl, STORES[store]), &d, &order, &out, &spec1, df1000, pl, &mut fails);
+                sum.bump(&format!("outcome:{}", ["ok", "unsupported-blank-predicate", "unsupported-term", "toxic-depth", "toxic-permutations", "panic"].get(out.code as usize).unwrap_or(&"other")));
+                if a.only.is_some() { println!("RUN limits=({df1000}/1000,{pl}) store={} order={} => code {} {} bytes={:?} idmap={:?}", STORES[store], show_d(&order), out.code, out.msg, out.bytes, out.idmap); }
+                body.push(format!("three_ok {once} tbl {df1000} {pl} {} {} {} {}", c_quads(&order), out.code, coq_str(&out.bytes), c_idmap(&out.idmap)));
+            }
+            text.push_str(&format!(" limits=({dfg},{plg})"));
+        } else {
+            // the copy: label bijection + quad order
+            let labels: Vec<String> = d_blanks(&d).into_iter().collect();
+            let mut fresh: Vec<String> = match r.below(3) {
+                0 => labels.clone(),
+                1 => (0..labels.len()).map(|i| format!("b{}", 9 + i)).collect(),
+                _ => (0..labels.len()).map(|i| ["z", "Y", "x1", "a", "e0", "m-2"][i % 6].to_string() + &"q".repeat(i / 6)).collect(),
+            };
+            shuffle(&mut fresh, &mut r);
+            let d2: Vec<Q> = { let mut v: Vec<Q> = d.iter().map(|q| rename_q(q, &|l| fresh[labels.iter().position(|k| k == l).unwrap()].clone())).collect(); shuffle(&mut v, &mut r); v };
+            let spec2 = spec_run(&d2, sha384);
+            let (o1, out1) = run_impl(&d, s1, sha384, 1.0, 6);
+            let (o2, out2) = run_impl(&d2, s2, sha384, 1.0, 6);
+            check_one(&format!("original in {}", STORES[s1]), &d, &o1, &out1, &spec1, 1000, 6, &mut fails);
+            check_one(&format!("copy in {}", STORES[s2]), &d2, &o2, &out2, &spec2, 1000, 6, &mut fails);
+            sum.bump(&format!("outcome:{}", ["ok", "unsupported-blank-predicate", "unsupported-term", "toxic-depth", "toxic-permutations", "panic"].get(out1.code as usize).unwrap_or(&"other")));
+            // (a) invariance
+            let mut tie = None;
+            for (s, dd) in [(&spec1, &d), (&spec2, &d2)] {
+                if let Ok(s) = s { for (x, y) in &s.ties { if !automorphic(dd, x, y) { tie = Some((x.clone(), y.clone())); } } }
+            }
+            if tie.is_some() { sum.bump("tie:non-automorphic-nodes"); }
+            if let (Ok(s), true) = (&spec1, tie.is_none()) { if !s.ties.is_empty() { sum.bump("tie:automorphic-nodes"); } }
+            if out1.code != out2.code {
+                fails.push(format!("outcome depends on labels/order/store: {} ({}) for {} but {} ({}) for the relabelled copy {}", out1.code, out1.msg, show_d(&d), out2.code, out2.msg, show_d(&d2)));
+            } else if out1.code == 0 && out1.bytes != out2.bytes {
+                let spec_agrees = matches!((&spec1, &spec2), (Ok(x), Ok(y)) if x.bytes == out1.bytes && y.bytes == out2.bytes);
+                if let (Some((x, y)), true) = (&tie, spec_agrees) {
+                    fails.push(format!("RDFC-1.0 tie between non-automorphic nodes (_:{x} and _:{y} get equal hash-n-degree results; the independent transcription of the W3C text behaves identically{}): isomorphic inputs {} and {} get different canonical documents {:?} and {:?}", if has_three(&d) { "; the dataset has a quad with three blank nodes" } else { "" }, show_d(&d), show_d(&d2), out1.bytes, out2.bytes));
+                } else {
+                    fails.push(format!("canonical bytes depend on labels/order/store: {} gives {:?} but its relabelled copy {} gives {:?}", show_d(&d), out1.bytes, show_d(&d2), out2.bytes));
+                }
+            }
+            if a.only.is_some() {
+                println!("ORIGINAL store={} order={} => code {} {} bytes={:?} idmap={:?}", STORES[s1], show_d(&o1), out1.code, out1.msg, out1.bytes, out1.idmap);
+                println!("COPY store={} order={} => code {} {} bytes={:?} idmap={:?}", STORES[s2], show_d(&o2), out2.code, out2.msg, out2.bytes, out2.idmap);
+            }
+            body.push(format!("impl_ok {once} tbl 1000 6 {} {} {} {}", c_quads(&o1), out1.code, coq_str(&out1.bytes), c_idmap(&out1.idmap)));
+            body.push(format!("impl_ok {once} tbl 1000 6 {} {} {} {}", c_quads(&o2), out2.code, coq_str(&out2.bytes), c_idmap(&out2.idmap)));
+            text.push_str(&format!(" copy={}", show_d(&d2)));
+        }
+        let table = take_table();
+        max_table = max_table.max(table.len());
+        if a.only.is_some() {
+            println!("CASE {idx}: {text}");
+            if let Ok(s) = &spec1 { println!("SPEC bytes={:?} idmap={:?} max_depth={} max_list={} ties={:?}", s.bytes, s.idmap, s.max_depth, s.max_list, s.ties); }
+            println!("hash table: {} entries", table.len());
+            for f in &fails { println!("ORACLE FAILURE: {f}"); }
+        }
+        for f in fails { sum.oracle_failures.push((idx.to_string(), f)); }
+        let escapes = d.iter().any(|q| q.0.iter().any(|t| matches!(t, SimpleTerm::LiteralDatatype(l, _) | SimpleTerm::LiteralLanguage(l, _) if l.chars().any(|c| (c as u32) < 0x20 || c == '"' || c == '\\' || c == '\u{7f}'))));
+        let nontrivial = nontrivial_nd || (c06 && (escapes || !is_supported(&d)));
+        if seen.insert(text.clone()) && nontrivial { sum.distinct_nontrivial += 1; }
+        sum.bump(&format!("shape:{shape_name}"));
+        if has_repeat(&d) { sum.bump("class:node-twice-in-a-quad"); }
+        if has_three(&d) { sum.bump("class:three-blank-nodes-in-a-quad"); }
+        if nontrivial_nd { sum.bump("hash-n-degree-ran"); }
+        if escapes { sum.bump("literal-needs-escaping"); }
+        sum.bump(if sha384 { "hash:sha384" } else { "hash:sha256" });
+        if sum.samples.len() < 5 && nontrivial { sum.samples.push(format!("case {idx}: {text}")); }
+        sum.evaluations += 1;
+        cases.push((idx, format!("let tbl := {} in {}", coq_table(&table), body.join(" && "))));
+    }
+    if a.only.is_none() {
+        let header = if c06 { "From Sophia.C05 Require Import Model.\nFrom Sophia.C06 Require Import Model." } else { "From Sophia.C05 Require Import Model." };
+        sum.shards = write_shards(&a.out, header, &cases, a.shards);
+        sum.extra.push(("max_hash_table_entries".into(), max_table.to_string()));
+        std::fs::write(format!("{}/summary.json", a.out), sum.to_json()).unwrap();
+    }
+    println!("{}: {} cases, {} distinct non-trivial, {} oracle failures", mode.to_lowercase(), sum.evaluations, sum.distinct_nontrivial, sum.oracle_failures.len());
 }
